@@ -164,6 +164,21 @@ def run(ctx, rep, tier="quick"):
     s6(ctx, rep)
     # S4 (cont.): the black list the model-based searchers exclude from is pending ∪ failed ∪ observed, and the failed
     # trials are never filtered out of it again (shared with C06-S5)
+    # the NaN record of a failed job carries the identity of the pending slot it stands for (the bracket checks it)
+    rf = ctx.P.method("SynchronousHyperbandScheduler", "_report_as_failed")
+    mk = [x for x in walk_shallow(rf.node) if isinstance(x, ast.Call) and fn_name(x) == "SlotInRung"]
+    slotp = [p_ for p_ in rf.params if p_ not in ("self", "bracket_id")]
+    okr = len(mk) == 1 and len(slotp) == 1
+    wrong = []
+    if okr:
+        for k_ in mk[0].keywords:
+            if k_.arg and k_.arg != "metric_val" and U(k_.value) != f"{slotp[0]}.{k_.arg}":
+                wrong.append(f"{k_.arg}={U(k_.value)}")
+        okr = not wrong and not mk[0].args and {"rung_index", "level", "slot_index", "trial_id"} <= {k_.arg for k_ in mk[0].keywords}
+    rep.put(okr, "S3", "agreement", "SynchronousHyperbandScheduler._report_as_failed: the NaN record copies every identifying field of the pending slot", rf,
+            mk[0] if mk else None, "rung_index, level, slot_index, trial_id taken from the slot; metric_val = NaN",
+            f"the record differs from the pending slot in {wrong or 'a missing field'}: the bracket's consistency check on the slot rejects it "
+            "(AssertionError out of on_trial_error), the slot stays pending and the rung waits for the failed job forever")
     # the removal of a failed trial's pending entries deletes the right positions
     from .common import ascending_index_deletion
     n_ = 0
